@@ -518,7 +518,7 @@ def m_transc(I, e, args, kws):
         u = args[0].unit
     out = _elementwise(I, e, args, unit=u)
     if name in ("floor", "ceil"):
-        out.tags["rounded"] = name
+        out.tags["rounded"] = "nearest" if (name == "floor" and args[0].tag("plus_half")) else name     # floor(x + 0.5)
     if name == "exp":
         out.sign = "POS"
     return out
